@@ -62,8 +62,36 @@ def float_literal_rounded(rec):
     return len(digits) > 15
 
 
+def float_literal_underflow(rec):
+    """K2: a NONZERO JSON number literal read through the f64 parser (written with a fraction or exponent) whose magnitude is
+    below the smallest subnormal double, 2^-1074: it is read as 0.0 (or, just below 2^-1074, possibly as the smallest
+    subnormal) — when it is read as 0.0 it is accepted as the integer 0 although the literal is a fraction."""
+    case = rec.get("case") or {}
+    lit = case.get("number_literal")
+    if lit is None or not re.search(r"[.eE]", lit):
+        return False
+    m = re.fullmatch(r"-?(\d+)(?:\.(\d+))?(?:[eE]([+-]?\d+))?", lit)
+    if not m:
+        return False
+    digits = (m.group(1) + (m.group(2) or ""))
+    if not digits.strip("0"):
+        return False  # the literal IS zero
+    # decimal exponent of the leading significant digit: value = 0.d1d2.. * 10^e10
+    ip, fp, ex = m.group(1), m.group(2) or "", int(m.group(3) or 0)
+    lead = len(ip.lstrip("0")) if ip.strip("0") else -(len(fp) - len(fp.lstrip("0")))
+    e10 = lead + ex
+    # 2^-1074 = 4.94e-324 = 0.494e-323: anything with e10 <= -324 is below it; e10 == -323 needs the exact comparison
+    if e10 <= -324:
+        return True
+    if e10 > -323:
+        return False
+    v = exact_value(lit)
+    return v is not None and 0 < abs(v) < Fraction(1, 2 ** 1074)
+
+
 CLASSES = {
     "float-literal-rounded": float_literal_rounded,
+    "float-literal-underflow": float_literal_underflow,
 }
 
 
